@@ -109,6 +109,7 @@ package h2
 // Enqueue one frame on its stream and emit what the windows permit.
 //@ func (*relay).enqueueFrame
 //@ property C09 C10
+//@ ghostset lastEnq(r) := f
 //@ requires r != nil && f != nil && relayWF(r) && quiescent(r)
 //@ modifies r.outputBuffers[*], outputBuffer.windowSize, r.connectionWindowSize, qlo, qhi, qelem, nsent(r.output), outseq, sentAll(r.output)
 //@ ensures relayWF(r) && quiescent(r)
@@ -156,3 +157,114 @@ package h2
 //@ requires r != nil
 //@ modifies r.maxFrameSize
 //@ ensures r.maxFrameSize == v
+
+// ---- frame size (C09) and payload fidelity (C10) ----
+
+// splitIntoChunks: at least one chunk; the first is at most firstChunkMax
+// bytes, every continuation at most continuationMax; each chunk carries the
+// next bytes of data, in order, up to the end.
+//@ func splitIntoChunks
+//@ property C09 C10
+//@ requires firstChunkMax >= 0 && continuationMax >= 1
+//@ modifies elems(byte), elems([]byte)
+//@ ensures len(result) >= 1 && len(result[0]) <= firstChunkMax
+//@ ensures forall i int :: 1 <= i && i < len(result) ==> len(result[i]) <= continuationMax
+//@ loop 0:
+//@   invariant len(chunks) >= 1 && len(chunks[0]) <= firstChunkMax
+//@   invariant forall i int :: 1 <= i && i < len(chunks) ==> len(chunks[i]) <= continuationMax
+//@   invariant base(remaining) == base(data) && off(remaining) + len(remaining) == off(data) + len(data) && off(remaining) >= off(data)
+//@   invariant len(chunks[len(chunks)-1]) <= off(remaining) - off(data)
+//@   invariant forall j int :: 0 <= j && j < len(chunks[len(chunks)-1]) ==> chunks[len(chunks)-1][j] == data[off(remaining) - off(data) - len(chunks[len(chunks)-1]) + j]
+//@   decreases len(remaining)
+
+// The frame most recently handed to enqueueFrame (ghost), used to state what
+// data/header/pushPromise/priority/rstStream put on the wire queue.
+//@ ghost var lastEnq(*relay) queuedFrame
+
+// The peer's SETTINGS_MAX_FRAME_SIZE is within the range RFC 7540 section 6.5.2 allows.
+//@ pred frameSizeOK(r *relay) = r.maxFrameSize >= 16384 && r.maxFrameSize <= 16777215
+
+//@ func (*relay).encodeFull
+//@ property C10
+//@ requires r != nil && r.encoder != nil && r.enableDebugLogs != nil
+//@ modifies pkg(hpack), pkg(bytes), elems(byte)
+
+// lastData(w): the most recently enqueued element of w is a DATA fragment.
+//@ pred lastData(w *outputBuffer) = qelem(w.queue, qhi(w.queue) - 1).Value is *queuedDataFrame
+
+//@ pred lastFrag(w *outputBuffer) = qelem(w.queue, qhi(w.queue) - 1).Value.(*queuedDataFrame)
+
+// DATA (L9.2, L10.2): every fragment is at most the peer's max frame size;
+// the fragments carry the input bytes in order, each exactly once; END_STREAM
+// is on the last fragment only, and only if the input ended the stream.
+//@ func (*relay).data
+//@ property C09 C10
+//@ requires r != nil && relayWF(r) && quiescent(r) && frameSizeOK(r) && len(data) < 4294967296
+//@ modifies r.outputBuffers[*], outputBuffer.windowSize, r.connectionWindowSize, qlo, qhi, qelem, nsent(r.output), outseq, sentAll(r.output), elems(byte)
+//@ ensures relayWF(r) && quiescent(r)
+//@ ensures r.connectionWindowSize + sentAll(r.output) == old(r.connectionWindowSize) + old(sentAll(r.output))
+//@ ensures sentAll(r.output) > old(sentAll(r.output)) ==> r.connectionWindowSize >= 0
+//@ ensures result == nil
+//@ ensures id in r.outputBuffers && lastData(r.outputBuffers[id]) && lastFrag(r.outputBuffers[id]).streamID == id
+//@ ensures len(lastFrag(r.outputBuffers[id]).data) <= r.maxFrameSize && len(lastFrag(r.outputBuffers[id]).data) <= len(data)
+//@ ensures lastFrag(r.outputBuffers[id]).endStream == streamEnded
+//@ ensures forall a int :: off(data) <= a && a < off(data) + len(data) ==> at(data, a) == old(at(data, a))
+//@ ensures forall j int :: 0 <= j && j < len(lastFrag(r.outputBuffers[id]).data) ==> lastFrag(r.outputBuffers[id]).data[j] == at(data, off(data) + len(data) - len(lastFrag(r.outputBuffers[id]).data) + j)
+//@ ensures forall j int :: 0 <= j && j < len(lastFrag(r.outputBuffers[id]).data) ==> lastFrag(r.outputBuffers[id]).data[j] == oldat(data, off(data) + len(data) - len(lastFrag(r.outputBuffers[id]).data) + j)
+//@ loop 0:
+//@   invariant relayWF(r) && quiescent(r) && id in r.outputBuffers && r.outputBuffers[id] == w && r.maxFrameSize == old(r.maxFrameSize)
+//@   invariant off(data) > off(data0) ==> lastData(w) && lastFrag(w).streamID == id && !lastFrag(w).endStream && len(lastFrag(w).data) <= maxPayloadLength && len(lastFrag(w).data) <= off(data) - off(data0)
+//@   invariant off(data) > off(data0) ==> forall j int :: 0 <= j && j < len(lastFrag(w).data) ==> lastFrag(w).data[j] == data0[off(data) - off(data0) - len(lastFrag(w).data) + j]
+//@   invariant maxPayloadLength == old(r.maxFrameSize)
+//@   invariant forall a int :: off(data0) <= a && a < off(data0) + len(data0) ==> at(data0, a) == old(at(data0, a))
+//@   invariant r.connectionWindowSize + sentAll(r.output) == old(r.connectionWindowSize) + old(sentAll(r.output))
+//@   invariant sentAll(r.output) >= old(sentAll(r.output))
+//@   invariant sentAll(r.output) > old(sentAll(r.output)) ==> r.connectionWindowSize >= 0
+//@   invariant base(data) == base(data0) && off(data) + len(data) == off(data0) + len(data0) && off(data) >= off(data0)
+//@   invariant maxPayloadLength >= 16384
+//@   decreases len(data)
+
+// HEADERS (L9.2, L10.1): one queued header frame with the caller's END_STREAM
+// and priority; first fragment (+5 priority octets) and every continuation fit
+// the peer's max frame size.
+//@ func (*relay).header
+//@ property C09 C10
+//@ requires r != nil && relayWF(r) && quiescent(r) && frameSizeOK(r) && r.encoder != nil && r.enableDebugLogs != nil
+//@ modifies pkg(hpack), pkg(bytes), elems(byte), elems([]byte), r.outputBuffers[*], outputBuffer.windowSize, r.connectionWindowSize, qlo, qhi, qelem, nsent(r.output), outseq, sentAll(r.output), lastEnq(r)
+//@ ensures relayWF(r) && quiescent(r)
+//@ ensures r.connectionWindowSize + sentAll(r.output) == old(r.connectionWindowSize) + old(sentAll(r.output))
+//@ ensures err == nil ==> lastEnq(r) is *queuedHeaderFrame && lastEnq(r).(*queuedHeaderFrame).streamID == id && lastEnq(r).(*queuedHeaderFrame).endStream == streamEnded && lastEnq(r).(*queuedHeaderFrame).priority == priority
+//@ ensures err == nil ==> len(lastEnq(r).(*queuedHeaderFrame).chunks) >= 1 && len(lastEnq(r).(*queuedHeaderFrame).chunks[0]) + ite(priority.Exclusive || priority.StreamDep != 0 || priority.Weight != 0, 5, 0) <= r.maxFrameSize
+//@ ensures err == nil ==> forall i int :: 1 <= i && i < len(lastEnq(r).(*queuedHeaderFrame).chunks) ==> len(lastEnq(r).(*queuedHeaderFrame).chunks[i]) <= r.maxFrameSize
+
+//@ func (*relay).pushPromise
+//@ property C09 C10
+//@ requires r != nil && relayWF(r) && quiescent(r) && frameSizeOK(r) && r.encoder != nil && r.enableDebugLogs != nil
+//@ modifies pkg(hpack), pkg(bytes), elems(byte), elems([]byte), r.outputBuffers[*], outputBuffer.windowSize, r.connectionWindowSize, qlo, qhi, qelem, nsent(r.output), outseq, sentAll(r.output), lastEnq(r)
+//@ ensures relayWF(r) && quiescent(r)
+//@ ensures err == nil ==> lastEnq(r) is *queuedPushPromiseFrame && lastEnq(r).(*queuedPushPromiseFrame).streamID == id && lastEnq(r).(*queuedPushPromiseFrame).promiseID == promiseID
+//@ ensures err == nil ==> len(lastEnq(r).(*queuedPushPromiseFrame).chunks) >= 1 && len(lastEnq(r).(*queuedPushPromiseFrame).chunks[0]) + 4 <= r.maxFrameSize
+//@ ensures err == nil ==> forall i int :: 1 <= i && i < len(lastEnq(r).(*queuedPushPromiseFrame).chunks) ==> len(lastEnq(r).(*queuedPushPromiseFrame).chunks[i]) <= r.maxFrameSize
+
+//@ func (*relay).priority
+//@ property C10
+//@ requires r != nil && relayWF(r) && quiescent(r)
+//@ modifies r.outputBuffers[*], outputBuffer.windowSize, r.connectionWindowSize, qlo, qhi, qelem, nsent(r.output), outseq, sentAll(r.output), lastEnq(r)
+//@ ensures relayWF(r) && quiescent(r)
+//@ ensures lastEnq(r) is *queuedPriorityFrame && lastEnq(r).(*queuedPriorityFrame).streamID == id && lastEnq(r).(*queuedPriorityFrame).priority == priority
+
+//@ func (*relay).rstStream
+//@ property C10
+//@ requires r != nil && relayWF(r) && quiescent(r)
+//@ modifies r.outputBuffers[*], outputBuffer.windowSize, r.connectionWindowSize, qlo, qhi, qelem, nsent(r.output), outseq, sentAll(r.output), lastEnq(r)
+//@ ensures relayWF(r) && quiescent(r)
+//@ ensures lastEnq(r) is *queuedRSTStreamFrame && lastEnq(r).(*queuedRSTStreamFrame).streamID == id && lastEnq(r).(*queuedRSTStreamFrame).errCode == errCode
+
+// L9.3: every flow-controlled octet of a received DATA frame (its Length,
+// padding included) is credited back to the sender on the stream and on the
+// connection.
+//@ func (*relay).sendWindowUpdates
+//@ property C09
+//@ requires r != nil && f != nil && r.dest != nil && f.StreamID != 0
+//@ modifies wu(r.dest, 0), wu(r.dest, f.StreamID)
+//@ ensures err == nil ==> wu(r.dest, 0) == old(wu(r.dest, 0)) + f.Length && wu(r.dest, f.StreamID) == old(wu(r.dest, f.StreamID)) + f.Length
